@@ -69,6 +69,9 @@ func ScratchRoot() string {
 	return "/verif/build/tmp"
 }
 
+// NewClockAt returns a virtual clock standing at the given unix milliseconds.
+func NewClockAt(ms int64) *verifhook.VirtualClock { return verifhook.NewVirtualClock(time.UnixMilli(ms)) }
+
 // NewScratchDir makes a fresh directory under the scratch root.
 func NewScratchDir(prefix string) string {
 	d := filepath.Join(ScratchRoot(), fmt.Sprintf("%s-%d-%d", prefix, os.Getpid(), scratchSeq.Add(1)))
